@@ -476,7 +476,21 @@ func (e *kvElection) stoppedLocked() bool {
 	return e.ctx == nil || e.ctx.Err() != nil
 }
 
+// stopped reports whether the election has been stopped (or was never started).
+func (e *kvElection) stopped() bool {
+	e.mu.RLock()
+	defer e.mu.RUnlock()
+	return e.stoppedLocked()
+}
+
 func (e *kvElection) attemptPriorityTakeover(payloadBytes []byte) error {
+	// A takeover is a sequence of store operations (Create, Get, Update) run by goroutines that Stop does
+	// not wait for: a stopped election must not continue it, or it would replace the leader's record
+	// with one that nobody refreshes.
+	if e.stopped() {
+		return ErrAlreadyStopped
+	}
+
 	entry, err := e.kv.Get(e.key)
 	if err != nil {
 		return err
@@ -492,6 +506,10 @@ func (e *kvElection) attemptPriorityTakeover(payloadBytes []byte) error {
 	if e.cfg.Priority <= currentPayload.Priority {
 		e.observeLeader(currentPayload.ID, entry.Revision())
 		return fmt.Errorf("current leader has equal or higher priority: %d >= %d", currentPayload.Priority, e.cfg.Priority)
+	}
+
+	if e.stopped() {
+		return ErrAlreadyStopped
 	}
 
 	newRev, err := e.kv.Update(e.key, payloadBytes, entry.Revision())
